@@ -985,6 +985,30 @@ func (env *Env) elabCall(x *ECall) Val {
 			fail("unknown identifier %s", id.Name)
 		}
 		return Val{T: types.Typ[types.Bool], S: pc}
+	case name == "waitson":
+		// waitson(ch) at a `site select#k`: one of the select's cases communicates on the channel ch
+		if len(x.Args) != 1 {
+			fail("waitson(ch) needs one channel")
+		}
+		if _, ok := env.vars["chan0"]; !ok {
+			fail("waitson() is only meaningful at a select site")
+		}
+		v := env.elab(x.Args[0])
+		var alts []string
+		for i := 0; ; i++ {
+			cv, ok := env.vars[fmt.Sprintf("chan%d", i)]
+			if !ok {
+				break
+			}
+			if c.sortOf(cv.T) != c.sortOf(v.T) {
+				continue
+			}
+			alts = append(alts, fmt.Sprintf("(= %s %s)", cv.S, v.S))
+		}
+		if len(alts) == 0 {
+			return Val{T: types.Typ[types.Bool], S: "false"}
+		}
+		return Val{T: types.Typ[types.Bool], S: "(or " + strings.Join(alts, " ") + " false)"}
 	case name == "sameobject":
 		// sameobject(a, b): the pointers / slices / interface-held pointers lie in the same allocated object
 		root := func(x Expr) string {
